@@ -98,6 +98,23 @@ class Scenario:
 
         env.spawn(driver, "driver%d" % index)
 
+        def second_caller():
+            runtime.running.wait()
+            if stop_at:
+                env.sleep(stop_at)
+            env.log("second-shutdown-call", phase=index)
+            try:
+                runtime.shutdown()
+            except Abort:
+                raise
+            except BaseException as err:  # noqa: B036
+                env.log("second-shutdown-raised", phase=index, exc=err)
+            else:
+                env.log("second-shutdown-returned", phase=index)
+
+        if phase.get("second_shutdown") == "concurrent":
+            env.spawn(second_caller, "second%d" % index)
+
         other = ServiceRunner(accept_delay=ACCEPT_DELAY)
 
         def rescue():
@@ -143,6 +160,16 @@ class Scenario:
             thread.join()
         else:
             blocking()
+        if phase.get("second_shutdown") == "after" and record["outcome"] is not None:
+            env.log("second-shutdown-call", phase=index)
+            try:
+                runtime.shutdown()
+            except Abort:
+                raise
+            except BaseException as err:  # noqa: B036
+                env.log("second-shutdown-raised", phase=index, exc=err)
+            else:
+                env.log("second-shutdown-returned", phase=index)
         # let the drivers of this phase finish before the next runner starts
         if concurrent_thread is not None:
             concurrent_thread.join()
@@ -208,6 +235,18 @@ class Scenario:
                 if how != "raised":
                     violations.append(("%s:failure-ignored" % label,
                                        "accept() returned normally after a payload failure"))
+            if phase.get("second_shutdown"):
+                called = any(e == "second-shutdown-call" for s, n, w, e, d in mine)
+                returned = any(e == "second-shutdown-returned" for s, n, w, e, d in mine)
+                raised = [d["exc"] for s, n, w, e, d in mine if e == "second-shutdown-raised"]
+                if called and not returned:
+                    violations.append((
+                        "%s:second-shutdown-%s:%s" % (
+                            label, phase["second_shutdown"],
+                            "raised-%s" % type(raised[0]).__name__ if raised else "hangs"),
+                        "a second shutdown() (%s) %s" % (
+                            phase["second_shutdown"],
+                            "raised %r" % (raised[0],) if raised else "did not return")))
             if phase.get("concurrent"):
                 ended_seq = [s for s, n, w, e, d in mine if e == "accept-ended"][0]
                 admitted = [s for s, n, w, e, d in mine if e == "concurrent-admitted"]
@@ -261,6 +300,10 @@ def scenario_params(tier):
         if population == "submitter" and tier == "thorough":
             for flavour in ("asyncio", "threading"):
                 out.append({"phases": [dict(phase, late_flavour=flavour)]})
+    for end, population, second, stop_at in itertools.product(
+            ENDS[:2], ["none", "sleepers", "shielded"], ["concurrent", "after"], [0.0, 0.5]):
+        out.append({"phases": [{"end": end, "thread": "main", "population": population,
+                                "stop_at": stop_at, "second_shutdown": second}]})
     for end, population in itertools.product(BASE_ENDS, ["none", "sleepers"]):
         out.append({"phases": [{"end": end, "thread": "main", "population": population,
                                 "stop_at": 0.5}]})
@@ -289,7 +332,7 @@ def run(ctx):
         # the shutdown-right-after-running window only exists between two source lines
         specs += H.line_variants(
             specs, lambda p: len(p["phases"]) == 1 and p["phases"][0]["stop_at"] == 0.0
-            and p["phases"][0]["population"] == "none" and not p["phases"][0]["concurrent"]
+            and p["phases"][0]["population"] == "none" and not p["phases"][0].get("concurrent")
             and p["phases"][0]["end"].startswith("shutdown")
             and p["phases"][0]["thread"] == "main")
     else:
